@@ -28,7 +28,7 @@ RULE = ("(histories) rule-based machine: two drawn data sets A,B (unrelated, B =
         "write_output into a fresh directory; every observation is compared bitwise with the first observation of the same "
         "quantity of the same data set; non-trivial = >= 2 constructions of different data sets interleaved and >= 1 repeated write. "
         "(subprocess) `cij run` of one drawn data set with PYTHONHASHSEED in {0,1,drawn} x working directory {empty, stray files, a "
-        "directory named like the crystal system, a stray constraints/ directory}; non-trivial = hash seed and cwd content both differ "
+        "directory named like the crystal system, a stray constraints/ directory, files named like the inputs}; non-trivial = hash seed and cwd content both differ "
         "from the base run. (fill) fill(fill(t)) == fill(t). distinct by drawn history / (seed, hashseed, cwd)")
 ASSUMPTIONS = [
     "single-threaded BLAS (OMP_NUM_THREADS=1) so that floating-point summation order is fixed by the code, not the scheduler",
@@ -36,7 +36,9 @@ ASSUMPTIONS = [
 ]
 
 QUANTS = ["modulus_adiabatic", "modulus_isothermal", "bulk_modulus_voigt_reuss_hill", "shear_modulus_voigt_reuss_hill",
-          "primary_velocities", "tp:modulus_adiabatic", "tp:modulus_isothermal", "tp:volumes", "static_p_array", "v_array"]
+          "primary_velocities", "tp:modulus_adiabatic", "tp:modulus_isothermal", "tp:volumes", "static_p_array", "v_array",
+          # bounds before their Hill means in the forward order, after them in the reverse order
+          "tp:bulk_modulus_voigt", "tp:shear_modulus_reuss", "tp:bulk_modulus_voigt_reuss_hill", "tp:shear_modulus_voigt_reuss_hill"]
 OUTPUT = {"pressure_base": ["cij", "bm_VRH", "G_VRH", "v", "vs", "vp", "cij_t"], "volume_base": ["p", "cij"]}
 # data set A additionally uses the dict form with overrides (must not leak into later writes of B)
 OUTPUT_A = {"pressure_base": [{"keyword": "cij", "unit": "kbar"}, "bm_VRH", {"keyword": "G_VRH", "unit": "Pa"}, "v",
@@ -315,7 +317,7 @@ def run_cli(settings_path, cwd, hashseed, extra=()):
     return r
 
 
-CWD_KINDS = ["empty", "stray-files", "system-dir", "constraints-dir"]
+CWD_KINDS = ["empty", "stray-files", "system-dir", "constraints-dir", "same-named-inputs"]
 HASHSEEDS = [1, 2, 17, 12345, 4294967295, "random"]
 
 
@@ -325,6 +327,11 @@ def prepare_cwd(kind, system):
     if kind == "stray-files":
         open(os.path.join(d, "notes.txt"), "w").write("c11 = c22\n")
         open(os.path.join(d, "settings.yaml.bak"), "w").write("qha: {}\n")
+    elif kind == "same-named-inputs":
+        # files of another calculation, named like the inputs the settings file (in another directory) refers to
+        open(os.path.join(d, "input01"), "w").write("phonon data of another crystal\n")
+        open(os.path.join(d, "input02"), "w").write("another static table\n0 0 0\nV c11\n")
+        open(os.path.join(d, "elast.dat"), "w").write("another static table\n0 0 0\nV c11\n")
     elif kind == "system-dir":
         os.mkdir(os.path.join(d, system))
         open(os.path.join(d, system, "README"), "w").write("unrelated\n")
